@@ -6,7 +6,7 @@ from engine.effects import IDX, fmt_path
 from .common import *
 
 CONFIGS = ['default', 'full']
-TECHNIQUE = 'dominance/decision tables (gate, no write before rejection), units abstract interpretation of every update form, who-may-write effects (KKT mirror discipline), sibling agreement'
+TECHNIQUE = 'dominance/decision tables (gate, no write before rejection), units abstract interpretation of every update form, who-may-write effects (KKT mirror discipline), sibling agreement, index-agreement rule on element stores (bound test, target and scaling entries share one index)'
 EXPLANATION = (
     "Equality of the subsequent solves is numerical and NOT decided. Decided on the MIR of the current tree: (R1) "
     "check_data_update_allowed dominates every write in update_P/q/A/b and errs exactly when presolve / chordal "
@@ -17,7 +17,8 @@ EXPLANATION = (
     "kktsystem.update_P/A after the data write with the solver's own matrices; (R5) KKT mirror discipline: the KKT "
     "value array is written only through the paired update/scale helpers that also forward to the LDL engine, except "
     "the reviewed regularisation restore; P->map.P, A->map.A; QDLDL indexes through AtoPAPt; the LDL back ends (QDLDL, faer) agree on what update_values / scale_values / offset_values do to their own copy; (R6) equilibration "
-    "happens once, at construction.")
+    "happens once, at construction."
+    " (R10) in every update form the bound test, the stored element and the equilibration entries use the same index (row/column of that entry for matrices); tuple forms without stores delegate unchanged; (R1, sdp) is_chordal_decomposed is true exactly when decomposition data exists.")
 ASSUMPTIONS = ['rustc MIR construction and trait resolution are correct', 'algebra primitives have their documented meaning']
 
 MUTATORS = {'copy_from_slice', 'lrscale', 'lscale', 'rscale', 'scale', 'hadamard', 'copy_from', 'fill', 'set', 'index_mut'}
@@ -47,6 +48,23 @@ def gate(rep, F, tag):
         R.check(any(k.startswith('is_presolved(') for v, o in rows for k in v), 'tests-presolve' + tag, 'the gate does not test is_presolved', chk.loc())
         ip = F.one(name='is_presolved', adt='DefaultProblemData')
         R.check(canon(ip.sym_local(0)) == 'is_some(self.presolver)', 'is_presolved' + tag, 'is_presolved returns %s' % canon(ip.sym_local(0)), ip.loc())
+        if tag:
+            # sdp build: any chordal decomposition (compact or standard form) re-indexes the rows of A and b, so the gate must close
+            # whenever the decomposition data exists
+            R.check(any(k.startswith('is_chordal_decomposed(') for v, o in rows for k in v), 'tests-decomposed' + tag, 'the gate does not test is_chordal_decomposed', chk.loc())
+            icd = F.one(name='is_chordal_decomposed', adt='DefaultProblemData')
+            n_ = 0
+            for val, ret, ev, tr in Walker(icd).leaves():
+                if ret[0] not in ('s', 'c'):
+                    continue
+                k = [x for x in val if x in ('discr(self.chordal_info)', 'is_some(self.chordal_info)')]
+                n_ += 1
+                want = bool(k) and val[k[0]] == 1
+                got = str(ret[1]) in ('true', '1')
+                R.check(bool(k) and got == want, 'is_chordal_decomposed|%s%s' % (int(want), tag),
+                        'is_chordal_decomposed returns %s under %s: it must be true exactly when the decomposition data exists (compact decompositions '
+                        're-index the rows too; an update in user numbering would land on the wrong internal rows)' % (ret[1], val), icd.loc())
+            R.check(n_ >= 2, 'is_chordal_decomposed|paths' + tag, 'only %d paths' % n_, icd.loc())
         for nm in ('update_P', 'update_q', 'update_A', 'update_b'):
             f = [g for g in F.find(name=nm) if 'data_updating' in g.key]
             if len(f) != 1:
@@ -325,6 +343,73 @@ def persistent_equilibration(rep, F, E, G, tag):
     R.guard(body)
 
 
+def element_store_indices(rep, F, tag):
+    R = rep.rule('C08.R10', 'index forms: the bound test, the stored element and the scaling entries all use the same index; tuple forms delegate unchanged')
+
+    def body():
+        forms = [f for f in F.fns if f.name in ('update_matrix', 'update_vector') and f.file.endswith('data_updating.rs') and f.dk == 'AssocFn']
+        R.check(len(forms) >= 11, 'forms' + tag, 'only %d update forms found' % len(forms))
+        n_store = n_deleg = 0
+        for f in forms:
+            st = strip_generics(f.impl_self or '')
+            vec = f.name == 'update_vector'
+            leaves = Walker(f, cut_loops=True).leaves()
+            for val, ret, ev, tr in leaves:
+                for e in ev:
+                    if e[0] != 'store' or 'arg2' not in str(e[1]):
+                        continue
+                    t, v = str(e[1]), str(e[2])
+                    m = re.fullmatch(r'arg2\[(.*)\]', t) if vec else re.fullmatch(r'index_mut\(arg2\.nzval, (.*)\)', t)
+                    if m is None:
+                        R.bad('store-target|%s|%s%s' % (f.name, st[:30], tag), '%s for %s stores into %s' % (f.name, st, t), f.loc())
+                        continue
+                    I = m.group(1)
+                    n_store += 1
+                    ln = 'len(arg2)' if vec else 'len(arg2.nzval)'
+                    ok_b = val.get('le(%s, %s)' % (ln, I)) == 0 or val.get('lt(%s, %s)' % (I, ln)) == 1
+                    R.check(ok_b, 'bound-same-index|%s|%s%s' % (f.name, st[:30], tag),
+                            '%s for %s stores element %s on a path where %s < %s has not been established (tests: %s)' % (f.name, st, I, I, ln, sorted(val)), f.loc())
+                    if vec:
+                        js = _index_args(v, 'arg3')
+                        R.check(js == [I], 'scale-same-index|%s|%s%s' % (f.name, st[:30], tag),
+                                '%s for %s stores v[%s] scaled by vscale%s: the equilibration entry must be that of the target index' % (f.name, st, I, js), f.loc())
+                    else:
+                        jl, jr = _index_args(v, 'arg3'), _index_args(v, 'arg4')
+                        R.check(jl == ['index_to_coord(arg2, %s).0' % I] and jr == ['index_to_coord(arg2, %s).1' % I], 'scale-same-index|%s|%s%s' % (f.name, st[:30], tag),
+                                '%s for %s stores nzval[%s] scaled by lscale%s, rscale%s: expected the row / column of that entry' % (f.name, st, I, jl, jr), f.loc())
+            has_store = any(e[0] == 'store' and 'arg2' in str(e[1]) for val, ret, ev, tr in leaves for e in ev)
+            if st.startswith('(') and not has_store:
+                rets = [str(ret[1]) for val, ret, ev, tr in leaves if ret[0] == 's']
+                want = '%s(zip(iter(self.0), iter(self.1)), arg2, arg3, arg4%s)' % (f.name, '' if vec else ', arg5')
+                n_deleg += 1
+                R.check(rets == [want], 'tuple-delegates|%s%s' % (f.name, tag), '%s for %s returns %s, expected %s' % (f.name, st, rets, want), f.loc())
+        R.check(n_store >= 4, 'count' + tag, 'only %d element stores analysed' % n_store)
+
+    R.guard(body)
+
+
+def _index_args(v, base):
+    """index expressions J of every occurrence base[J] in the canonical text v (balanced brackets)"""
+    out = []
+    i = 0
+    key = base + '['
+    while True:
+        i = v.find(key, i)
+        if i < 0:
+            return out
+        if i > 0 and (v[i - 1].isalnum() or v[i - 1] in '._'):
+            i += 1
+            continue
+        j = i + len(key)
+        d = 1
+        while j < len(v) and d:
+            d += v[j] == '['
+            d -= v[j] == ']'
+            j += 1
+        out.append(v[i + len(key):j - 1])
+        i = j
+
+
 def run(ctx, rep, tier):
     for cfg in CONFIGS:
         F = ctx.facts(cfg)
@@ -336,6 +421,7 @@ def run(ctx, rep, tier):
         caches_and_mirrors(rep, F, E, G, tag)
         kkt_mirror(rep, F, E, G, tag)
         persistent_equilibration(rep, F, E, G, tag)
+        element_store_indices(rep, F, tag)
     # an updated solver must behave like a rebuilt one: every solve starts from scratch (C05.R6 re-run)
     from . import c05, c04
     for cfg in CONFIGS:
